@@ -563,6 +563,38 @@ def rng_len(n):
     return 8 if n % 2 else 3
 
 
+def empty_results_are_per_evaluation(col):
+    """a Group spec evaluated on an input that yields nothing (empty sequence, every item SKIPped) returns an EMPTY container of
+    its own each time: what the caller does to one result shows up in no later (or nested sibling) evaluation"""
+    skip_all = lambda t: SKIP
+    specs = [('dict', lambda: Group({T % 2: [T]}), {}), ('list', lambda: Group([T]), []), ('dict-skip-all', lambda: Group({skip_all: [T]}), {}),
+             ('nested', lambda: Group({T % 2: {T % 3: [T]}}), {})]
+    for name, mk, empty in specs:
+        spec = mk()
+        results = []
+        for n in range(3):
+            items = [] if name != 'dict-skip-all' else [1, 2, 3]
+            got = call(G, items, spec)
+            col.case(('empty-result', name, n), True)
+            col.count('glom_evaluations')
+            if not got.ok or got.value != empty or any(got.value is r for r in results):
+                col.violation('C16/empty-result-shared-between-evaluations', 'evaluation #%d of one Group object (%s) on %r: %r, expected a fresh %r'
+                              % (n + 1, name, items, got, empty), None)
+                break
+            results.append(got.value)
+            if isinstance(got.value, dict):
+                got.value['MUTATED-BY-CALLER'] = 1
+            else:
+                got.value.append('MUTATED-BY-CALLER')
+    # nested: one inner Group object evaluated once per (empty) row
+    inner = Group([T])
+    got = call(G, [[], [], [5]], [inner])
+    col.count('glom_evaluations')
+    if not got.ok or got.value != [[], [], [5]] or got.value[0] is got.value[1]:
+        col.violation('C16/empty-result-shared-between-evaluations', '[Group([T])] over [[], [], [5]]: %r (first two the same object: %s)'
+                      % (got, got.ok and got.value[0] is got.value[1]), None)
+
+
 def run(ctx):
     col, rng = ctx.col, ctx.rng
     col.require('glom_evaluations', 1000)
@@ -573,5 +605,6 @@ def run(ctx):
         reentrant_same_object(col, rng)
         nested_in_aggregator(col, rng)
         partial_orders(col)
+        empty_results_are_per_evaluation(col)
     for i in range(ctx.n(3000, 30000)):
         one_case(col, rng)
